@@ -76,6 +76,8 @@ module Nat :
 
   val divmod : nat -> nat -> nat -> nat -> nat * nat
 
+  val div : nat -> nat -> nat
+
   val modulo : nat -> nat -> nat
  end
 
@@ -606,6 +608,8 @@ val aset : string -> 'a1 -> (string * 'a1) list -> (string * 'a1) list
 
 val aget : string -> (string * 'a1) list -> 'a1 option
 
+val ahas : string -> (string * 'a1) list -> bool
+
 val gv_json : gv -> json
 
 val to_map_recursive : gv -> gv
@@ -926,5 +930,149 @@ val expand_tbl :
 val pair_of1 : sexp -> string * string
 
 val run7 : sexp -> sexp
+
+val hex_digit : nat -> ascii
+
+val esc_byte : ascii -> string
+
+val esc : string -> string
+
+val quote : string -> string
+
+val join_comma : string list -> string
+
+val ser : json -> string
+
+val env_prefix : string
+
+val mandatory_fields : string list
+
+val matrix_is_empty : matrix0 -> bool
+
+val field_value : command_step -> string -> string -> json option
+
+val has_prefix : string -> string -> bool
+
+val env_values :
+  command_step -> (string * string) list -> (string * json) list
+
+val sign_values :
+  command_step -> string -> (string * string) list -> (string * json) list
+
+val payload : string -> (string * json) list -> string
+
+val values_for_fields :
+  command_step -> string -> string list -> (string * json) list option
+
+val all_mandatory : string list -> bool
+
+val require_keys :
+  (string * json) list -> string list -> (string * json) list option
+
+val sign :
+  ('a1 -> string) -> ('a1 -> string -> string) -> 'a1 -> command_step ->
+  string -> (string * string) list -> signature
+
+val verify_payload :
+  signature -> command_step -> string -> (string * string) list -> string
+  option
+
+val verify :
+  ('a1 -> string -> string -> bool) -> 'a1 -> signature -> command_step ->
+  string -> (string * string) list -> bool
+
+val sign_step :
+  ('a1 -> string) -> ('a1 -> string -> string) -> 'a1 -> string ->
+  (string * string) list -> step0 -> step0 option
+
+val sign_steps :
+  ('a1 -> string) -> ('a1 -> string -> string) -> 'a1 -> string ->
+  (string * string) list -> step0 list -> step0 list option
+
+val pair_of2 : sexp -> string * string
+
+val step_of : sexp -> command_step option
+
+val run_payload : sexp -> sexp
+
+val sym_sgn : string -> string -> string
+
+val sym_vrf : string -> string -> string -> bool
+
+val sym_alg : string -> string
+
+val ssign :
+  string -> command_step -> string -> (string * string) list -> signature
+
+val sverify :
+  string -> signature -> command_step -> string -> (string * string) list ->
+  bool
+
+val run_verify : sexp -> sexp
+
+val sigs_of : string -> string -> (string * string) list -> step0 -> sexp list
+
+val erase_sig_step : step0 -> step0
+
+val run_sign_steps : sexp -> sexp
+
+val is_letter : ascii -> bool
+
+val is_ident : ascii -> bool
+
+val span_s : (ascii -> bool) -> string -> string * string
+
+val until_brace : string -> (string * string) option
+
+val lookup0 : (string * string) list -> string -> string option
+
+val expand_go : nat -> (string * string) list -> string -> string option
+
+val expand_simple : (string * string) list -> string -> string option
+
+val omapM : ('a1 -> 'a2 option) -> 'a1 list -> 'a2 list option
+
+val orename :
+  nat -> (string * 'a1) list -> ((string * string) * 'a1) list ->
+  (string * 'a1) list
+
+val urename : ((string * string) * 'a1) list -> (string * 'a1) list
+
+val interp_gv : (string -> string option) -> gv -> gv option
+
+val interp_umap :
+  (string -> string option) -> ('a1 -> 'a1 option) -> (string * 'a1) list ->
+  (string * 'a1) list option
+
+val interp_rem :
+  (string -> string option) -> (string * gv) list -> (string * gv) list option
+
+val interp_strs :
+  (string -> string option) -> string list -> string list option
+
+val interp_plugin : (string -> string option) -> plugin -> plugin option
+
+val interp_adj :
+  (string -> string option) -> madj0 option -> madj0 option option
+
+val interp_matrix : (string -> string option) -> matrix0 -> matrix0 option
+
+val interp_cache : (string -> string option) -> cache -> cache option
+
+val opt_interp : ('a1 -> 'a1 option) -> 'a1 option -> 'a1 option option
+
+val interp_command :
+  (string -> string option) -> command_step -> command_step option
+
+val interp_step : (string -> string option) -> step0 -> step0 option
+
+val interp_pipeline_rest :
+  (string -> string option) -> pipeline -> pipeline option
+
+val interpolate_pipeline :
+  bool -> (string * string) list -> pipeline -> (pipeline * (string * string)
+  list) option
+
+val run8 : sexp -> sexp
 
 val dispatch : string -> sexp -> sexp
